@@ -343,6 +343,9 @@ def unrelated_statements(ch, label, colliding, k, after_def=None, local_name=Non
     if after_def:
         kinds = kinds + ["rebind", "rebind_ann", "use_after"]
     kinds = kinds + ["async_local_class", "def_local_class"]
+    # less common but perfectly legal module content
+    kinds = kinds + ["type_checking_block", "conditional_def", "redefinition", "dunder_all", "unicode", "semicolons", "string_annotation",
+                     "type_comment", "star_args", "posonly", "decorated_function", "lambda_default", "walrus_fstring"]
     import sys as _sys
 
     if _sys.version_info[:2] >= (3, 12):
@@ -379,6 +382,33 @@ def unrelated_statements(ch, label, colliding, k, after_def=None, local_name=Non
         elif kind == "def_local_class":
             tname = colliding[0] if colliding else "Config"
             src = ("def build_%s(flag=True):\n    class %s(object):\n        enabled: bool = flag\n\n    return %s" % (tag, local_name or tname, local_name or tname))
+        elif kind == "type_checking_block":
+            src = "if TYPE_CHECKING:\n    from collections.abc import Sequence as Seq_%s\nelse:\n    Seq_%s = list" % (tag, tag)
+        elif kind == "conditional_def":
+            src = ("if sys.version_info >= (3, 8):\n    def compat_%s(%s=None):\n        return %s\nelse:\n    def compat_%s(%s=None):\n        return None"
+                   % (tag, cname, cname, tag, cname))
+        elif kind == "redefinition":
+            src = "def twice_%s(x):\n    return x\n\n\ndef twice_%s(x, y=0):\n    return x + y" % (tag, tag)
+        elif kind == "dunder_all":
+            src = "__all__ = [%r, 'helper_%s']" % (colliding[0] if colliding else "Config", tag)
+        elif kind == "unicode":
+            src = "caf\u00e9_%s = 'na\u00efve \u2013 r\u00e9sum\u00e9 \u03b1\u03b2 \u4e2d\u6587'" % tag
+        elif kind == "semicolons":
+            src = "a_%s = 1; b_%s = a_%s + \\\n    2" % (tag, tag, tag)
+        elif kind == "string_annotation":
+            src = "def later_%s(x: 'Later_%s', *, %s: \"int\" = 0) -> 'Later_%s':\n    return x" % (tag, tag, cname, tag)
+        elif kind == "type_comment":
+            src = "items_%s = []  # type: List[int]" % tag
+        elif kind == "star_args":
+            src = "def spread_%s(first, *args, %s=None, **kwargs):\n    return (first, args, %s, kwargs)" % (tag, cname, cname)
+        elif kind == "posonly":
+            src = "def strict_%s(a, b=2, /, %s=3, *, flag=False):\n    return a + b" % (tag, cname)
+        elif kind == "decorated_function":
+            src = "@functools.lru_cache(maxsize=None)\n@staticmethod\ndef cached_%s(%s=1):\n    \"\"\"cached\"\"\"\n    return %s" % (tag, cname, cname)
+        elif kind == "lambda_default":
+            src = "def sorter_%s(key=lambda item: (item.%s, -item.rank), reverse=not True):\n    return sorted([], key=key, reverse=reverse)" % (tag, cname)
+        elif kind == "walrus_fstring":
+            src = "if (n_%s := len(sys.argv)) > 1:\n    banner_%s = f\"{n_%s!r:>4} args, {'%s'!s} last\"" % (tag, tag, tag, cname)
         elif kind == "helper":
             src = "def helper_%s(x, y=2):\n    \"\"\"helper\"\"\"\n    return x + y" % tag
         elif kind == "helper_collide":
